@@ -17,6 +17,12 @@ Correspondence: the same inputs go to Model/Sanitise.lean (`format`, `clean`, `s
 outputs are compared as exact text.  The digest, the JSON parser, logging.Formatter's line and
 Python's str() of numbers / lists enter the model as parameters computed by the running code.
 
+Round 2: `text` cases carry the oracle whenever json.loads of the message text (decided here, not by the
+implementation) returns a dict - duplicate keys, NaN/Infinity, numbers beyond double range, unpaired
+surrogates, escapes inside keys; `gurl` / `gtext` drive GoogleLogger.write_event with a text message,
+`ginst` the methods of a GoogleLogger() instance (what get_logger() returns under K_SERVICE), `e2e`
+replays a failure seen through get_logger(); the digest parameter is pinned to SHA-256 of str(value).
+
 Readings (documented in design_notes/C20.md): keys are always visible; objects inside arrays are
 outside the quantifier ("nested objects") so no demand is made on tokens below a sensitive key
 inside an array element; keys containing one of the four non-ASCII characters that re.IGNORECASE
@@ -54,6 +60,23 @@ LEVELS = [("DEBUG", 10), ("INFO", 20), ("WARNING", 30), ("ERROR", 40), ("AUDIT",
 COLOURS = [(False, "yes", ""), (False, "", ""), (False, "", "xterm-256color"), (False, "truecolor", "xterm"), (True, "yes", "xterm-256color"), (False, "no", "vt100")]
 
 _STATE = {}
+_GEN = {}
+
+
+def generated(key, default=None):
+    """an item harness/extractors/c20.py read from the working tree on this run"""
+    if not _GEN:
+        from .. import core
+        try:
+            _GEN.update(json.load(open(os.path.join(core.LEAN, "OrsoVerif", "Generated", "generated.json"))))
+        except OSError:
+            _GEN["<missing>"] = True
+    return _GEN.get(key, default)
+
+
+def guard_strip():
+    iso = generated("c20.isolate")
+    return iso[1] if isinstance(iso, list) and len(iso) == 3 and isinstance(iso[1], str) else " \t\r\n\ufeff"
 
 
 def impl():
@@ -149,6 +172,79 @@ def classify(obj):
     return secret, visible, free, due
 
 
+def spec_object(text):
+    """The statement's "the log message is a JSON object", decided without the implementation: Python's
+    json.loads of the message text (the str the caller logged) returns a dict.  What the parser accepts
+    beyond RFC 8259 (NaN / Infinity literals, numbers beyond double range, duplicate keys, unpaired
+    surrogates raw or escaped) is inside; what it rejects (a leading BOM, single quotes, comments, a
+    trailing comma, integers of more than 4300 digits, nesting beyond the recursion limit) is a plain text."""
+    try:
+        d = json.loads(text)
+    except (ValueError, RecursionError):
+        return None
+    return d if isinstance(d, dict) else None
+
+
+class _Pairs(list):
+    """an object of the message text with *every* member it spells, overwritten duplicates included"""
+
+
+def classify_text(text):
+    """classify() for a message given as text: the object json.loads builds decides what must stay
+    visible; a value spelt under a sensitive key must be hidden even if a later duplicate of the key
+    overwrote it (it is then simply absent), so the secret tokens are collected from all pairs."""
+    d = spec_object(text)
+    if d is None:
+        return None
+    secret, visible, free, due = classify(d)
+    try:
+        tree = json.loads(text, object_pairs_hook=_Pairs)
+    except (ValueError, RecursionError):
+        return d, secret, visible, free, due
+    extra = set()
+
+    def all_tokens(v):
+        if isinstance(v, _Pairs):
+            out = set()
+            for _, x in v:
+                out |= all_tokens(x)
+            return out
+        if isinstance(v, list):
+            out = set()
+            for x in v:
+                out |= all_tokens(x)
+            return out
+        return tokens_of(v)
+
+    def walk(ps):
+        last = {}
+        for i, (k, v) in enumerate(ps):
+            last[k] = i
+        for i, (k, v) in enumerate(ps):
+            if ambiguous_key(k):
+                free.update(all_tokens(v))
+            elif spec_sensitive(k):
+                extra.update(all_tokens(v))
+            elif last[k] != i:
+                gone(v)  # an overwritten member under another key: not shown, but what it hid stays hidden
+            elif isinstance(v, _Pairs):
+                walk(v)
+
+    def gone(v):
+        if isinstance(v, _Pairs):
+            for k, x in v:
+                if spec_sensitive(k) and not ambiguous_key(k):
+                    extra.update(all_tokens(x))
+                else:
+                    gone(x)
+        else:
+            free.update(all_tokens(v))
+
+    walk(tree)
+    secret = (set(secret) | extra) - visible - free
+    return d, secret, visible, free, due
+
+
 def array_of_objects(v, inside=False):
     if isinstance(v, dict):
         return inside or any(array_of_objects(x, False) for x in v.values())
@@ -234,9 +330,9 @@ def encode_message(obj, enc):
 def message_of(case):
     if case["kind"] == "json":
         return encode_message(case["obj"], case.get("enc", 0))
-    if case["kind"] == "url":
+    if case["kind"] in ("url", "gurl"):
         return "%s%s://%s:%s@%s%s" % (case["pre"], case["scheme"], case["user"], case["password"], case["host"], case["post"])
-    if case["kind"] == "text":
+    if case["kind"] in ("text", "gtext"):
         return case["text"]
     raise InfraError("bad kind")
 
@@ -301,16 +397,21 @@ def run_format(case):
     # the model's parameters: what the real parser says about each candidate, the real digests
     try:
         parts = line.split("|")
+        if len(parts) * len(line) > 4_000_000:
+            # the parameter table (one parse per candidate) would be quadratic: oracle only
+            raise wire.WireError("record too long for the candidate table")
         parses, digs = [], []
         for i in range(len(parts)):
             cand = "|".join(parts[i:])
             try:
-                d = json.loads(cand.encode("UTF8"))
+                d = json.loads(cand.encode("UTF8", "surrogatepass"))
             except ValueError:
                 d = None
+            if isinstance(d, dict) != (spec_object(cand) is not None):
+                res["parser_param_differs_from_json_loads_of_text"] = cand[:40]
             if isinstance(d, dict):
                 # hypothesis `hparse` of C20.split_recovers_json_syntactic, checked on the real parser
-                if cand.lstrip(" \t\n\r")[:1] != "{":
+                if cand.lstrip(" \t\n\r")[:1] != "{" and cand.lstrip(guard_strip())[:1] != "{":
                     res["parser_assumption_violated"] = cand[:40]
                 parses.append([cand, to_wire(d)])
                 digests_of(d, fmtr.hash_it, digs)
@@ -322,6 +423,27 @@ def run_format(case):
     return res
 
 
+def oracle_url(case, msg, out):
+    a = len(case["pre"]) + len(case["scheme"]) + 3
+    spans = [(a, a + len(case["user"]) + 1 + len(case["password"]))]
+    # every other URL with user-info in the surrounding text counts as well
+    spans += [m.span(1) for m in RFC_URL.finditer(msg)]
+    hidden, keep, pos = set(), [], 0
+    for lo, hi in sorted(spans):
+        hidden |= set(TOKEN.findall(msg[lo:hi]))
+        if lo >= pos:
+            keep.append(msg[pos:lo])
+            pos = hi
+        else:
+            pos = max(pos, hi)
+    keep.append(msg[pos:])
+    hidden -= set(TOKEN.findall("\x00".join(keep)))
+    for t in sorted(hidden):
+        if t in out:
+            return "URL user-info is emitted"
+    return None
+
+
 def oracle_format(case, out):
     """Clause that fails, or None."""
     if out is None:
@@ -329,49 +451,36 @@ def oracle_format(case, out):
     if case["kind"] == "json":
         return oracle_text(case["obj"], out)
     if case["kind"] == "url":
-        msg = message_of(case)
-        a = len(case["pre"]) + len(case["scheme"]) + 3
-        spans = [(a, a + len(case["user"]) + 1 + len(case["password"]))]
-        # every other URL with user-info in the surrounding text counts as well
-        spans += [m.span(1) for m in RFC_URL.finditer(msg)]
-        hidden, keep, pos = set(), [], 0
-        for lo, hi in sorted(spans):
-            hidden |= set(TOKEN.findall(msg[lo:hi]))
-            if lo >= pos:
-                keep.append(msg[pos:lo])
-                pos = hi
-            else:
-                pos = max(pos, hi)
-        keep.append(msg[pos:])
-        hidden -= set(TOKEN.findall("\x00".join(keep)))
-        for t in sorted(hidden):
-            if t in out:
-                return "URL user-info is emitted"
-        return None
+        return oracle_url(case, message_of(case), out)
+    if case["kind"] == "text":
+        # a message handed over as text: it is a JSON object iff json.loads (of the text itself) says so
+        c = classify_text(case["text"])
+        if c is not None:
+            return oracle_text(c[0], out, classified=c[1:])
     return None
 
 
 def valid_case(c):
-    if not isinstance(c, dict) or c.get("kind") not in ("json", "url", "text", "clean", "google"):
+    if not isinstance(c, dict) or c.get("kind") not in ("json", "url", "text", "clean", "google", "gurl", "gtext", "ginst"):
         return False
-    for k in ("layout", "colour", "level", "enc", "severity", "span"):
+    for k in ("layout", "colour", "level", "enc", "severity", "span", "method", "loglevel"):
         if k in c and not (isinstance(c[k], int) and not isinstance(c[k], bool) and c[k] >= 0):
             return False
     if "name" in c and not isinstance(c["name"], str):
         return False
-    if c["kind"] in ("json", "clean", "google"):
+    if c["kind"] in ("json", "clean", "google", "ginst"):
         if not isinstance(c.get("obj"), dict):
             return False
         if c["kind"] != "json" and not isinstance(c.get("colorize", True), bool):
             return False
         return json_ok(c["obj"])
-    if c["kind"] == "url":
+    if c["kind"] in ("url", "gurl"):
         if not all(isinstance(c.get(k), str) for k in ("pre", "scheme", "user", "password", "host", "post")):
             return False
         ui = c["user"] + c["password"]
         # RFC 3986 user-info: no '@', no '/', no white space / control characters
         return not any(ch in ui for ch in "@/?#\n\r \t") and ":" not in c["user"] and "@" not in c["host"][:1]
-    if c["kind"] == "text":
+    if c["kind"] in ("text", "gtext"):
         return isinstance(c.get("text"), str)
     return True
 
@@ -474,8 +583,109 @@ def run_google(case):
     return out, printed, err, "C20 event " + wire.line(base, to_wire(case["obj"]), digs)
 
 
-def oracle_text(obj, text, placeholders=True):
-    secret, visible, free, due = classify(obj)
+def run_google_text(case):
+    """write_event with a text message (the `else` branch): the URL rule, then the message as it is"""
+    st = impl()
+    msg = message_of(case)
+    sev_i = case.get("severity", 0) % len(severities())
+    span_i = case.get("span", 0) % len(SPANS)
+    try:
+        out, printed = _google_invoke(st["gl"], msg, severities()[sev_i], SPANS[span_i])
+        err = None
+    except Exception as e:
+        out, printed, err = None, "", type(e).__name__
+    try:
+        base = google_base(sev_i, span_i)
+        ml = "C20 eventtext " + wire.line(base, msg)
+    except InfraError:
+        raise
+    except (wire.WireError, UnicodeEncodeError):
+        ml = None
+    except Exception as e:
+        return out, printed, err or type(e).__name__, None
+    return out, printed, err, ml
+
+
+GMETHODS = ["debug", "info", "warning", "error", "audit", "alert", "__call__"]
+GLEVELS = [0, 25, 35, 85]
+_GINST_BASE = {}
+
+
+def _ginst_call(logger, method, obj):
+    return getattr(logger, method)(obj)
+
+
+def _ginst_invoke(gl, loglevel, method, obj, reuse):
+    """GoogleLogger() as get_logger() builds it under K_SERVICE, one of its level methods (or the object
+    itself) called with a dict.  With `reuse` the same object first logs another record and has its
+    level set again (the closures are rebuilt), then logs `obj`: use, mutate, use again."""
+    old = os.environ.get("LOGGING_LEVEL")
+    os.environ["LOGGING_LEVEL"] = str(loglevel)
+    try:
+        logger = gl.GoogleLogger()
+    finally:
+        if old is None:
+            os.environ.pop("LOGGING_LEVEL", None)
+        else:
+            os.environ["LOGGING_LEVEL"] = old
+    buf = io.StringIO()
+    gl.logging_seen_warnings.clear()
+    with contextlib.redirect_stdout(io.StringIO()):
+        if reuse:
+            _ginst_call(logger, "alert", {"zz8": "first"})
+            logger.setLevel(loglevel)
+    with contextlib.redirect_stdout(buf):
+        out = _ginst_call(logger, method, obj)
+    return out, buf.getvalue()
+
+
+def ginst_base(level_i, method_i):
+    import orjson
+
+    key = (level_i, method_i)
+    if key not in _GINST_BASE:
+        gl = impl()["gl"]
+        out, printed = _ginst_invoke(gl, GLEVELS[level_i], GMETHODS[method_i], {"zz9": "1"}, False)
+        if out is None and printed.endswith("\n") and GMETHODS[method_i] == "__call__":
+            out = printed[:-1]  # GoogleLogger.__call__ returns nothing: the printed line is the output
+        if out is None:
+            _GINST_BASE[key] = None  # the level filter drops this method at this level
+        else:
+            d = orjson.loads(out)
+            d.pop("message", None)
+            d.pop("zz9", None)
+            for k, v in d.items():
+                if not (isinstance(v, str) or (isinstance(v, dict) and all(isinstance(x, str) for x in v.values()))):
+                    raise InfraError("unexpected shape of the structured log: %r" % (d,))
+            _GINST_BASE[key] = d
+    return _GINST_BASE[key]
+
+
+def run_ginst(case):
+    st = impl()
+    level_i = case.get("loglevel", 1) % len(GLEVELS)
+    method_i = case.get("method", 3) % len(GMETHODS)
+    try:
+        out, printed = _ginst_invoke(st["gl"], GLEVELS[level_i], GMETHODS[method_i], case["obj"], bool(case.get("reuse")))
+        err = None
+    except Exception as e:
+        out, printed, err = None, "", type(e).__name__
+    f = st["lf"].LogFormatter(None)
+    digs = []
+    digests_of(case["obj"], f.hash_it, digs)
+    try:
+        base = ginst_base(level_i, method_i)
+    except InfraError:
+        raise
+    except Exception as e:
+        return out, printed, err or type(e).__name__, None, False
+    if base is None:
+        return out, printed, err, None, True
+    return out, printed, err, "C20 event " + wire.line(base, to_wire(case["obj"]), digs), False
+
+
+def oracle_text(obj, text, placeholders=True, classified=None):
+    secret, visible, free, due = classified if classified is not None else classify(obj)
     for t in sorted(secret):
         if t in text:
             return "value under a sensitive key is emitted"
@@ -539,7 +749,8 @@ def _eval_one(case):
             return None if m[0] == r["out"] else "formatted text differs"
 
         return clause, {"out": r["out"], "err": r["err"], "line": r["line"], "can": r["can"],
-                        "parser_assumption_violated": r.get("parser_assumption_violated")}, r["model_line"], compare
+                        "parser_assumption_violated": r.get("parser_assumption_violated"),
+                        "parser_param_differs_from_json_loads_of_text": r.get("parser_param_differs_from_json_loads_of_text")}, r["model_line"], compare
     if kind == "clean":
         res, err, ml = run_clean(case)
         text = None if res is None else json.dumps(dict((k, v) for k, v in res))
@@ -564,6 +775,53 @@ def _eval_one(case):
                 return "write_event line differs"
             if printed != out + "\n":
                 return "write_event printed something else than it returned"
+            return None
+
+        return clause, {"out": out, "err": err}, ml, compare
+    if kind in ("gurl", "gtext"):
+        out, printed, err, ml = run_google_text(case)
+        clause = None
+        if out is not None and kind == "gurl":
+            msg = message_of(case)
+            clause = oracle_url(case, msg, out) or oracle_url(case, msg, printed)
+
+        def compare(m):
+            if err is not None:
+                return "write_event raised %s" % err
+            if m[0] != out:
+                return "write_event line differs"
+            if printed != out + "\n":
+                return "write_event printed something else than it returned"
+            return None
+
+        return clause, {"out": out, "err": err}, ml, compare
+    if kind == "ginst":
+        out, printed, err, ml, filtered = run_ginst(case)
+        clause = None
+        if filtered:
+            # the level filter dropped the calibration call: this call must be dropped as well
+            def compare(m):
+                return None
+
+            if printed or out is not None:
+                clause = oracle_text(case["obj"], (out or "") + printed, placeholders=False)
+            return clause, {"out": out, "err": err, "filtered": True}, None, compare
+        method = GMETHODS[case.get("method", 3) % len(GMETHODS)]
+        if out is not None:
+            clause = oracle_text(case["obj"], out) or oracle_text(case["obj"], printed, placeholders=False)
+        elif method == "__call__" and err is None:
+            # GoogleLogger.__call__ drops the return value of self.debug: the printed line is the output
+            clause = oracle_text(case["obj"], printed) if printed else None
+
+        def compare(m):
+            if err is not None:
+                return "GoogleLogger.%s raised %s" % (method, err)
+            if method == "__call__":
+                return None if printed == m[0] + "\n" else "GoogleLogger() printed another line"
+            if m[0] != out:
+                return "GoogleLogger.%s line differs" % method
+            if printed != out + "\n":
+                return "GoogleLogger.%s printed something else than it returned" % method
             return None
 
         return clause, {"out": out, "err": err}, ml, compare
@@ -610,16 +868,41 @@ def evaluate(ctx, cases):
     mo_by_i = {i: o for (i, _), o in zip(lines, mouts)}
     for i, (c, (clause, view, ml, compare)) in enumerate(zip(cases, runs)):
         nontrivial = True
-        if c["kind"] in ("json", "clean", "google"):
+        if c["kind"] in ("json", "clean", "google", "ginst"):
             s, v, f, due = classify(c["obj"])
             nontrivial = bool(s or v)
             ctx.hit("secret-tokens:%d" % min(len(s), 5))
             ctx.hit("placeholders-due:%d" % min(len(due), 5))
         ctx.case(c, nontrivial)
         ctx.hit("kind:" + c["kind"])
-        if c["kind"] == "google":
+        if c["kind"] in ("google", "gurl", "gtext"):
             ctx.hit("google:severity=%s" % (severities()[c.get("severity", 0) % 14],))
             ctx.hit("google:span=%r" % (SPANS[c.get("span", 0) % len(SPANS)],))
+        if c["kind"] == "ginst":
+            ctx.hit("ginst:%s@level%d%s%s" % (GMETHODS[c.get("method", 3) % len(GMETHODS)], GLEVELS[c.get("loglevel", 1) % len(GLEVELS)],
+                                             ":reused" if c.get("reuse") else "", ":filtered" if view.get("filtered") else ""))
+        n_ = len(message_of(c)) if c["kind"] in ("json", "url", "text", "gurl", "gtext") else len(json.dumps(c["obj"], default=repr))
+        ctx.hit("message-length:%s" % ("<200" if n_ < 200 else "<1000" if n_ < 1000 else "<10000" if n_ < 10000 else "<100000" if n_ < 100000 else ">=100000"))
+        if c["kind"] == "text":
+            t = c["text"]
+            so = spec_object(t)
+            ctx.hit("text:%s" % ("json-object" if so is not None else "not-an-object"))
+            if so is not None:
+                try:
+                    if len(json.loads(t, object_pairs_hook=_Pairs)) != len(so):
+                        ctx.hit("text:duplicate-keys")
+                except (ValueError, RecursionError):
+                    pass
+                if any(0xD800 <= ord(ch) <= 0xDFFF for ch in t):
+                    ctx.hit("text:raw-unpaired-surrogate")
+                if re.search(r"NaN|Infinity", t):
+                    ctx.hit("text:nan-or-infinity-literal")
+                if re.search(r"[0-9]{400}|[eE][+-]?[0-9]{3}", t):
+                    ctx.hit("text:number-beyond-double-or-64-bits")
+                if "\\u" in t:
+                    ctx.hit("text:unicode-escape")
+            if view.get("parser_param_differs_from_json_loads_of_text"):
+                ctx.hit("text:implementation-parser-accepts-what-json.loads(text)-refuses(BOM)")
         if c["kind"] in ("json", "url", "text"):
             ctx.hit("layout:%d" % (c.get("layout", 0) % len(LAYOUTS)))
             ctx.hit("colour:%d(%s)" % (c.get("colour", 0) % len(COLOURS), "on" if view.get("can") else "off"))
@@ -749,6 +1032,9 @@ def all_keys(rng):
         ks += key_variants(rng, w)
     ks += LOOKALIKES
     ks += ["pa\u017f\u017fword", "api_\u212aey", "credent\u0131als", "credent\u0130als", "пароль", "PASSWORD", "Pwd", "API_KEY", "_token", "x_Token"]
+    # spellings on which str.lower(), str.casefold() and re.IGNORECASE part ways (the model folds as re does)
+    ks += ["Passw\u00f6rd", "PASSW\u00d6RD", "PA\u017f\u017fWORD", "CREDENT\u0130ALS", "credent\u0130\u0307als", "x_\u212aEY", "pa\u00dfword",
+           "\uff50\uff41\uff53\uff53\uff57\uff4f\uff52\uff44", "pass\u200bword", "p\u0430ssword", "PASSWORD\u0307", "_TO\u212aEN", "\u0130_key", "pwd\u0131"]
     return ks
 
 
@@ -899,6 +1185,120 @@ def random_case(ctx, keys):
     return frame(rng, kind="text", text=rng.choice(texts))
 
 
+def parser_texts(rng):
+    """Message *texts* on the border of what json.loads accepts (the parser's acceptance set is a parameter
+    of the model; here it is exercised on purpose), each with fresh tokens: S, W under sensitive keys, V visible."""
+    S, V, W = token(rng), token(rng), token(rng)
+    return [
+        '{"password": "%s", "password": "%s", "v": "%s"}' % (S, W, V),      # duplicate sensitive key: the last one is digested
+        '{"a": {"password": "%s"}, "a": "%s"}' % (S, V),                     # the overwritten object held a secret
+        '{"a": "%s", "a": {"x_key": "%s", "n": "%s"}}' % (W, S, V),          # the overwriting object holds one
+        '{"note": "%s", "note": "%s", "pwd": "%s"}' % (W, V, S),
+        '{"pwd": "%s", "v": "%s", "pwd": {"k": "%s"}}' % (S, V, W),
+        '{"password": "%s", "x": NaN, "y": Infinity, "z": -Infinity, "v": "%s"}' % (S, V),
+        '{"api_key": NaN, "x_secret": -Infinity, "v": "%s"}' % V,
+        '{"password": "%s", "x": 1E+400, "y": -1e400, "z": 1e-400, "v": "%s"}' % (S, V),
+        '{"db_pwd": 1E+400, "v": "%s"}' % V,
+        '{"password": "%s", "n": %s, "v": "%s"}' % (S, "7" * 4300, V),     # the longest integer json.loads takes
+        '{"user_pwd": %s, "v": "%s"}' % ("8" * 4300, V),
+        '{"password": "%s", "n": %s}' % (S, "9" * 4301),                     # one digit more: ValueError -> not an object
+        '{"password": "\\ud800%s", "v": "%s"}' % (S, V),                     # escaped unpaired surrogate in the secret
+        '{"password": "%s", "f": "\\udc80%s"}' % (S, V),                     # ... next to it
+        '{"password": "\udc80%s", "v": "%s"}' % (S, V),                      # the same, raw in the text
+        '{"password": "%s", "f": "\udc80%s"}' % (S, V),
+        '{"f\udc80": "%s", "x_token": "%s"}' % (V, S),
+        '{"f": "\ud83d\ude00%s", "x_token": "\ud83d%s"}' % (V, S),
+        ' \t\n\r {"password": "%s", "v": "%s"} \n\t ' % (S, V),
+        '{"password": "%s\\u0000%s", "v": "%s\\u0000"}' % (S, W, V),
+        '{"pass\\u0077ord": "%s", "v": "%s"}' % (S, V),                       # the key is spelt with an escape
+        '{"\\u0050ASSWORD": "%s", "v\\u0031": "%s"}' % (S, V),
+        '{"cred\\u0065ntials_file": ["%s"], "v": "%s"}' % (S, V),
+        '{"a": {"b": {"c": {"d": {"e": {"f": {"password": "%s", "v": "%s"}}}}}}}' % (S, V),
+        '{"password": {"a": {"b": {"c": {"d": "%s"}}}}, "v": "%s"}' % (S, V),
+        '{}',
+        '{"": "%s", "pwd": "%s"}' % (V, S),
+        '{"a": "x | {\\"password\\": \\"%s\\"}", "my_token": "%s"}' % (V, S),  # JSON text inside a visible text value
+        '{"password": "%s", "v": "%s"}' % (S + "Q" * 3000, V),
+        '{"v": "%s", "password"\n:\n"%s"\n}' % (V, S),
+        '{"password":"%s","v":"%s"}' % (S, V),
+        '{"PASSWORD": "%s", "Passw\u00f6rd": "%s", "PA\u017f\u017fWORD": "%s"}' % (S, V, W),
+        '{"password\\n": "%s", "v": "%s"}' % (S, V),
+        '{"v": "%s", "password": "%s"}trailing' % (V, S),
+        '\ufeff{"password": "%s"}' % S,                                      # BOM: json.loads(text) refuses: plain text, no demand
+        "{'password': '%s'}" % S, '{"password": "%s",}' % S, '{"password": "%s"} x' % S, '[{"password": "%s"}]' % S, '"%s"' % S,
+        '{"password": "%s" /* c */}' % S, '\x0b{"password": "%s"}' % S, '{"password": "%s\x01"}' % S,
+    ]
+
+
+def long_cases(ctx):
+    """sizes a fast path or a truncation would be keyed on: a secret and a visible token at both ends of long
+    values, a URL before / after a long text, a JSON message after a long run of white space"""
+    rng = ctx.rng
+    for n in ctx.scale([1500, 5000, 20000, 70000], [1500, 5000, 20000, 70000, 150000]):
+        filler = ("lorem 'ipsum' dolor " * (n // 20 + 1))[:n]
+        a, b, c_, d = token(rng), token(rng), token(rng), token(rng)
+        yield frame(rng, kind="json", enc=0, obj={"note": a + " " + filler + " " + b, "db_password": c_ + filler[: n // 2] + d,
+                                                  "ctx": {"x_key": token(rng), "v": filler[: n // 3] + token(rng)}})
+        yield {"kind": "clean", "obj": {"api_key": [filler, token(rng)], "v": token(rng) + filler}, "colorize": bool(n % 2)}
+        yield {"kind": "google", "obj": {"password": filler + token(rng), "v": token(rng)}, "severity": 3, "span": 0}
+        for pre, post in ((filler + " ", ""), ("", " " + filler), (filler + " | ", " | " + filler)):
+            yield frame(rng, kind="url", pre=pre, scheme="postgres", user="svc", password=token(rng), host="db", post=post)
+            yield {"kind": "gurl", "pre": pre, "scheme": "https", "user": token(rng), "password": token(rng), "host": "h", "post": post,
+                   "severity": 3, "span": 0}
+        yield frame(rng, kind="text", text=" " * n + '{"password": "%s", "v": "%s"}' % (token(rng), token(rng)) + "\n" * (n // 10))
+        yield frame(rng, kind="text", text='{"v": "%s", "pad": "%s", "x_token": "%s"}' % (token(rng), filler.replace("'", " "), token(rng)))
+
+
+def parser_cases(ctx):
+    rng = ctx.rng
+    for layout in (0, 1, 2, 6):
+        for colour in (0, 1):
+            for t in parser_texts(rng):
+                yield {"kind": "text", "text": t, "layout": layout, "colour": colour, "level": rng.randrange(len(LEVELS))}
+
+
+def google_text_cases(ctx, n):
+    """write_event with a text message: URLs with user-info in arbitrary surrounding text, under every
+    severity x span id; plus texts that are no URL (compared with the model only)"""
+    rng = ctx.rng
+    i = 0
+    for sev in range(14):
+        for span in range(len(SPANS)):
+            c = url_case(rng)
+            for k in ("layout", "colour", "level", "enc", "name"):
+                c.pop(k, None)
+            c.update(kind="gurl", severity=sev, span=span)
+            yield c
+            i += 1
+    texts = ["plain text", "", " ", "://", "a://b", "x://u@h", "see http://example.com/a and mail bob@example.com", "@://@", "a\nb://c\n@d",
+             '{"password": "x"}', "it's `x` | \"y\"", "\u00e9\u4e2d\U0001f600 ://\u00e9@\u4e2d", "://" * 5 + "@" * 5, "tab\tsep\\back\x01ctl"]
+    for _ in range(n):
+        if rng.random() < 0.6:
+            c = url_case(rng)
+            for k in ("layout", "colour", "level", "enc", "name"):
+                c.pop(k, None)
+            c.update(kind="gurl", severity=rng.randrange(14), span=rng.randrange(len(SPANS)))
+            yield c
+        else:
+            yield {"kind": "gtext", "text": rng.choice(texts) + rng.choice(["", " " + token(rng)]), "severity": rng.randrange(14), "span": rng.randrange(len(SPANS))}
+
+
+def ginst_cases(ctx, n):
+    """GoogleLogger() (what get_logger() returns under K_SERVICE): every method x every level setting,
+    fresh and re-used object, then random"""
+    rng = ctx.rng
+    keys = all_keys(rng)
+    for level in range(len(GLEVELS)):
+        for method in range(len(GMETHODS)):
+            for reuse in (False, True):
+                obj = {"db_password": text_marker(rng, 1), "note": text_marker(rng, 0), "ctx": {"api_key": {"v": token(rng)}, "x": token(rng)},
+                       "My_Credentials_2": [token(rng)]}
+                yield {"kind": "ginst", "obj": obj, "method": method, "loglevel": level, "reuse": reuse}
+    for _ in range(n):
+        yield {"kind": "ginst", "obj": random_obj(rng, keys, rng.choice([0, 1, 2])), "method": rng.randrange(len(GMETHODS)),
+               "loglevel": rng.randrange(len(GLEVELS)), "reuse": rng.random() < 0.5}
+
+
 # --------------------------------------------------------------------------- impl-free checks (exit 2 on failure)
 
 
@@ -974,45 +1374,158 @@ def oracle_surrogate(ctx):
 
 
 def end_to_end(ctx, n):
-    """logger.error(dict) through get_logger(): add_level.py serialises the dict, the handler formats."""
-    import orjson
-
+    """logger.error(dict) through get_logger(): add_level.py serialises the dict (orjson, or json when orjson
+    refuses it), the handler formats.  Every dict that is a JSON object is demanded."""
     st = impl()
     rng = ctx.rng
     logger = st["logger"]
     handler = logger.handlers[0]
     old_stream, old_level = handler.stream, logger.level
     keys = all_keys(rng)
+    special = [
+        {"password": token(rng), "n": 2 ** 64, "v": token(rng)},                     # orjson: integer beyond 64 bits
+        {"db_pwd": 2 ** 64 + 12345678, "v": token(rng)},
+        {"password": token(rng), "f": "\udc80" + token(rng)},                        # orjson: unpaired surrogate
+        {"x_secret": "\ud800" + token(rng), "v": token(rng)},
+        {"ctx": {"api_key": token(rng), "big": -(10 ** 30)}, "v": token(rng)},
+        {"password": token(rng), "x": float("nan"), "y": float("inf"), "v": token(rng)},  # orjson writes null
+    ]
+    renamed = None
     try:
         logger.setLevel(1)
-        for i in range(n):
-            obj = random_obj(rng, keys, rng.choice([0, 1, 2]))
-            if not wire_ok(obj):
-                continue
-            try:
-                orjson.dumps(obj)
-            except TypeError:
-                # add_level.py falls back to str(dict) (not JSON) when orjson refuses the value
-                # (integers beyond 64 bits): the message is then not a JSON object -- outside the property
-                ctx.hit("end-to-end:not-serialisable-skipped")
-                continue
+        for i in range(n + len(special)):
+            obj = special[i] if i < len(special) else random_obj(rng, keys, rng.choice([0, 1, 2]))
+            if i == (n + len(special)) // 2:
+                # use, mutate, use again: set_log_name() clears the cached logger; the next get_logger() builds a new
+                # one whose name (a header field) contains the field separator and looks like a level token
+                st["cl"].set_log_name("SVC|x ERROR    y")
+                renamed = st["cl"].get_logger()
+                renamed.setLevel(1)
             buf = io.StringIO()
-            handler.stream = buf
+            lg = renamed if renamed is not None else logger
+            lg.handlers[0].stream = buf
             with colour_env(COLOURS[i % len(COLOURS)]):
-                getattr(logger, ["error", "info", "audit", "alert", "debug"][i % 5])(obj)
+                getattr(lg, ["error", "info", "audit", "alert", "debug"][i % 5])(obj)
             text = buf.getvalue()
+            if renamed is not None:
+                ctx.hit("end-to-end:after-set_log_name")
             c = {"kind": "json", "obj": obj, "layout": 0, "colour": i % len(COLOURS), "level": 3, "enc": 2}
             ctx.case(c, True, key="e2e:" + json.dumps(obj, sort_keys=True, default=repr))
             ctx.hit("kind:end-to-end")
-            clause = oracle_text(obj, text) if text else "record was not emitted"
+            if i < len(special):
+                ctx.hit("end-to-end:orjson-refuses-or-rewrites")
+            if any(isinstance(x, float) and x != x for x in obj.values()):
+                view = {k: v for k, v in obj.items() if not isinstance(v, float)}  # nan/inf are written as null: nothing to see
+            else:
+                view = obj
+            clause = oracle_text(view, text) if text else "record was not emitted"
             if clause:
                 # replay through the direct path (same message encoding) so the failure is reproducible
-                evaluate(ctx, [c])
+                if json_ok(obj):
+                    evaluate(ctx, [c])
                 if not ctx.violations:
-                    ctx.fail(c, clause + " (through get_logger())", impl={"out": text})
+                    ec = {"kind": "e2e", "obj": obj, "colour": i % len(COLOURS), "method": ["error", "info", "audit", "alert", "debug"][i % 5]}
+                    if renamed is not None:
+                        ec["log_name"] = "SVC|x ERROR    y"
+                    ctx.fail(ec, clause + " (through get_logger())", impl={"out": text})
     finally:
         handler.stream = old_stream
         logger.setLevel(old_level)
+        if renamed is not None:
+            st["cl"].set_log_name("DEFAULT")
+            st["logger"] = st["cl"].get_logger()
+
+
+def replay_e2e(ctx, case):
+    st = impl()
+    if isinstance(case.get("log_name"), str):
+        st["cl"].set_log_name(case["log_name"])
+        try:
+            _replay_e2e(ctx, case, st["cl"].get_logger())
+        finally:
+            st["cl"].set_log_name("DEFAULT")
+            st["logger"] = st["cl"].get_logger()
+        return
+    _replay_e2e(ctx, case, st["logger"])
+
+
+def _replay_e2e(ctx, case, logger):
+    handler = logger.handlers[0]
+    old_stream, old_level = handler.stream, logger.level
+    try:
+        logger.setLevel(1)
+        buf = io.StringIO()
+        handler.stream = buf
+        with colour_env(COLOURS[case.get("colour", 0) % len(COLOURS)]):
+            getattr(logger, case.get("method", "error"))(case["obj"])
+        text = buf.getvalue()
+    finally:
+        handler.stream = old_stream
+        logger.setLevel(old_level)
+    ctx.case(case, True)
+    clause = oracle_text(case["obj"], text) if text else "record was not emitted"
+    if clause:
+        ctx.fail(case, clause + " (through get_logger())", impl={"out": text})
+
+
+def check_digest(ctx):
+    """The digest is a parameter of the model (`h`).  Here it is pinned down on the running code: hash_it of a
+    text is the first `digestLen` hex digits (extracted) of SHA-256 of that text and of nothing else - not of
+    the formatter instance, the colour setting or an earlier call (no salt, whatever the docstring says)."""
+    import hashlib
+
+    st = impl()
+    n = generated("c20.digest_len", 8)
+    rng = ctx.rng
+    a = st["lf"].LogFormatter(None)
+    b = st["lf"].LogFormatter(logging.Formatter("%(message)s"), suppress_color=True)
+    vals = ["", "x", token(rng), "\u00e9\u4e2d\U0001f600", "\ud800" + token(rng), str(2 ** 64), str({"a": [1, None]}), "a|b", " ERROR    "]
+    vals += [text_marker(rng) for _ in range(40)]
+    for v in vals:
+        want = hashlib.sha256(v.encode("utf-8", "surrogatepass")).hexdigest()[:n]
+        got = [a.hash_it(v), b.hash_it(v), a.hash_it(v)]
+        ctx.hit("digest:checked")
+        if any(g != want for g in got):
+            ctx.disagree({"kind": "clean", "obj": {"password": v}, "colorize": False}, {"hash_it": got}, {"sha256_prefix": want},
+                         "the digest is not the %d-digit SHA-256 prefix of str(value) alone" % n)
+            return
+    ctx.note("digest", "hash_it(text) = sha256(text)[:%d] on %d texts, the same from two formatter instances and on a repeated call; "
+             "a short digest of a short or guessable secret can be found by brute force - out of the property's scope" % (n, len(vals)))
+
+
+def observe_suppression_report(ctx):
+    """Not demanded by the statement (the report is another record, and its message is plain text), only
+    measured: a second identical WARNING is suppressed and reported at exit with the *message as logged*."""
+    st = impl()
+    gl = st["gl"]
+    tok = "SUPPRESSED7" + token(ctx.rng)
+    msg = {"password": tok}
+    gl.logging_seen_warnings.clear()
+    try:
+        with contextlib.redirect_stdout(io.StringIO()):
+            gl.GoogleLogger.write_event(msg, "sys", severities()[2])
+            second = gl.GoogleLogger.write_event(msg, "sys", severities()[2])
+        buf = io.StringIO()
+        old = os.environ.get("K_SERVICE")
+        os.environ["K_SERVICE"] = "x"
+        st["cl"].get_logger.cache_clear()
+        try:
+            with contextlib.redirect_stdout(buf):
+                gl.report_suppressions(str(msg))
+        finally:
+            if old is None:
+                os.environ.pop("K_SERVICE", None)
+            else:
+                os.environ["K_SERVICE"] = old
+            st["cl"].get_logger.cache_clear()
+        ctx.note("observation_suppression_report", "second identical warning returned %r; the exit-time report of the structured logger %s the value "
+                 "logged under 'password' (no demand: the report is a different, plain-text record)" % (second, "contains" if tok in buf.getvalue() else "does not contain"))
+    except Exception as e:
+        ctx.note("observation_suppression_report", "not measured: %s" % type(e).__name__)
+    finally:
+        gl.logging_seen_warnings.clear()
+        import atexit
+        atexit.unregister(gl.report_suppressions)
 
 
 def run(ctx):
@@ -1035,10 +1548,23 @@ def run(ctx):
     rng = ctx.rng
     keys = all_keys(rng)
     check_sens_vs_spec(ctx, keys + [random_key(rng, keys) for _ in range(ctx.scale(300, 3000))])
+    check_digest(ctx)
     evaluate(ctx, [c for c in CORPUS if c is not CORPUS[5]])
     oracle_surrogate(ctx)
     batch = list(settings_cases(ctx)) + list(google_settings_cases(ctx))
     evaluate(ctx, batch)
+    evaluate(ctx, list(parser_cases(ctx)))
+    evaluate(ctx, list(long_cases(ctx)))
+    evaluate(ctx, list(google_text_cases(ctx, ctx.scale(150, 3000))))
+    evaluate(ctx, list(ginst_cases(ctx, ctx.scale(100, 3000))))
+    observe_suppression_report(ctx)
+    ctx.note("call_sites", {"enumerated_from_source": generated("c20.call_sites", []), "new": generated("c20.call_sites_new", []),
+                            "gone": generated("c20.call_sites_gone", []),
+                            "driven_by": {"LogFormatter.format/sanitize_record/clean_record/color_code/colorizer": "kinds json, url, text, clean",
+                                          "get_logger/add_logging_level/log_for_level/_log/StreamHandler/setFormatter": "end-to-end (logger.<level>(dict) with the handler's stream captured)",
+                                          "GoogleLogger.write_event/log_it/print": "kinds google (dict), gurl and gtext (text)",
+                                          "GoogleLogger.create_logger.base_logger/GoogleLogger()": "kind ginst (every method x level, fresh and re-used object)",
+                                          "report_suppressions": "measured only (observation_suppression_report)"}})
     n_ex = 0
     batch = []
     for c in exhaustive_cases(ctx):
@@ -1072,6 +1598,9 @@ def intensify(ctx):
 
 
 def replay(ctx, case):
+    if isinstance(case, dict) and case.get("kind") == "e2e":
+        replay_e2e(ctx, case)
+        return
     evaluate(ctx, [case])
 
 
